@@ -201,10 +201,13 @@ static Verdict runC02(const Case &cs) {
     if (re >= 0) { v.labels.insert("in:non-sentence(skipped)"); continue; }
     RefTrees rt = enumerate(x, e, w);
     if (rt.overflow) { v.labels.insert("discard:enumeration-cap"); continue; }
-    for (int la = 0; la < 3; la++) {
+    for (int pass = 0; pass < 4; pass++) {
+      // passes 0-2: the three lookahead levels without the cost flag; pass 3: one parse with the cost flag at one of the
+      // levels (still one tree without ALT nodes; which tree and the cost fields are C04's business)
+      int la = pass < 3 ? pass : (int)(w.size() % 3);
       Binding *b = freshDefined(cs, v);
       if (!b) return v;
-      Conf cf; cf.la = la; cf.one = 1; cf.cost = 0; cf.rec = 0;
+      Conf cf; cf.la = la; cf.one = 1; cf.cost = pass == 3; cf.rec = 0;
       Outcome o = runParse(*b, codes, cf);
       v.parses++;
       if (o.exploded()) { v.labels.insert(o.explosionLabel()); b->destroy(); delete b; continue; } // harness limits (listed findings)
@@ -212,6 +215,7 @@ static Verdict runC02(const Case &cs) {
       if (o.rc != 0 || !o.root || !o.errs.empty()) { v.fail("sentence not accepted" + where); return v; }
       if (!o.tree.ok) { v.fail("malformed tree: " + o.tree.problem + where); return v; }
       if (o.tree.overflow || o.tree.den.size() != 1) { v.fail("one parse requested but the result does not denote exactly one tree" + where); return v; }
+      if (cf.cost) { v.labels.insert("cfg:one-parse-with-cost-flag"); b->destroy(); delete b; continue; }
       if (!rt.all.count(*o.tree.den.begin())) { v.fail("returned tree is not the translation of any derivation" + where); return v; }
       if (o.tree.has_err) { v.fail("ERROR node without error recovery" + where); return v; }
       if (usesInterestingTranslation(x.g) && o.tree.n_nodes >= 3) v.nontrivial = true;
@@ -407,7 +411,7 @@ extern const PropDef g_props_parse[] = {
      20},
     {"C02", genC02, runC02,
      "random CFG with random translation specs (permuted/partial/nil-padded abstract nodes, pass-through, `# -', none) x sentences x lookahead "
-     "{0,1,2}, one parse; oracle = membership of the returned tree (code+attribute of every TERM, node names, child order) in the set of "
+     "{0,1,2}, one parse (plus one parse with the cost flag per input: exactly one well-formed tree without ALT nodes); oracle = membership of the returned tree (code+attribute of every TERM, node names, child order) in the set of "
      "translations of all derivations enumerated by the reference, plus structural walk. Non-trivial: grammar has a non-identity translation "
      "and the tree has >= 3 nodes.",
      20},
